@@ -131,6 +131,8 @@ Definition field_of (m : mval) (f : string) : option mval :=
   | MV (VQ q) => if String.eqb f "unit" then Some (MV (VU (qu q))) else if String.eqb f "value" then Some (MV (VF (qv q))) else None
   | MV (VT t) => if String.eqb f "0" then Some (MV (VI t)) else None
   | MV (VD d) => if String.eqb f "0" then Some (MV (VI d)) else None
+  | MV (VU u) => if String.eqb f "millimeter_exp" then Some (MV (VI (mm u)))
+                 else if String.eqb f "second_exp" then Some (MV (VI (sec u))) else None
   | MV (VS s) => if String.eqb f "position" then Some (MV (VF (s_pos s)))
                  else if String.eqb f "velocity" then Some (MV (VF (s_vel s)))
                  else if String.eqb f "acceleration" then Some (MV (VF (s_acc s))) else None
@@ -491,6 +493,7 @@ Fixpoint eval (e : mexpr) (en : env) {struct e} : tree outcome :=
           if o =? 1 then ret1 (MV (VI (p + q))) en2
           else if o =? 2 then (if negb (q <=? p) then Leaf OPanic else ret1 (MV (VI (p - q))) en2)
           else if o =? 3 then (if q =? 0 then Leaf OPanic else ret1 (MV (VI (p mod q))) en2)      (* % on usize *)
+          else if o =? 4 then ret1 (MV (VI (p - q))) en2                                              (* - on the i8 exponents of a Unit *)
           else Leaf OType
       | _, _ => Leaf OType
       end
